@@ -42,6 +42,27 @@ def kernel_points(g):
     return [] if P is None else [P, RF.ISO2.neg(P)]
 
 
+def special_points(g):
+    """points of the isogenous curve at which something special happens in the rational map:
+    rational zeros of the x- and y-numerators (images with x = 0, i.e. the 3-torsion points (0, +-2) of E, resp. y = 0),
+    and the points where E' and E intersect (x* = (b - B')/A', the same coordinates satisfy both equations)."""
+    f = FQ if g == 1 else FQ2
+    iso = RF.ISO1 if g == 1 else RF.ISO2
+    out = []
+    if g == 1:
+        for tab in (RF.ISO_TABLES[1][1], RF.ISO_TABLES[1][3]):
+            for x in G.poly_roots_fq(tab):
+                P = iso.lift_x(x)
+                if P is not None:
+                    out += [P, iso.neg(P)]
+    b = f.small(4) if g == 1 else (4, 4)
+    xs = f.mul(f.sub(b, iso.b), f.inv(iso.a))
+    P = iso.lift_x(xs)
+    if P is not None:
+        out += [P, iso.neg(P)]
+    return out
+
+
 def plan(tier, seed):
     shards, no = [], 0
     q = tier == "quick"
@@ -69,6 +90,10 @@ def run_shard(shard, tier, seed, wd, res):
         for K in kernel_points(g):
             s.op(gp + ".iso", lit(K))
             s.op(gp + ".iso", lit(K, f.one))
+        for Sp in special_points(g):
+            s.op(gp + ".iso", lit(Sp))
+            s.op(gp + ".iso", lit(Sp, f.one))
+            s.op(gp + ".iso", lit(Sp, rng.choice(G.special_lambdas(g, rng))))
         for _ in range(6):
             s.op(gp + ".iso", lit(None))
         s.op(gp + ".iso", V.proj(g, f.zero, f.one, f.zero))
